@@ -240,7 +240,7 @@ func corr(args []string) {
 	}
 	r := rng.FromEnv(1301)
 	for i := 0; i < *n; i++ {
-		emit(Case{File: genFile(r, 4, 7, false), When: r.Intn(5000000)})
+		emit(Case{File: genFile(r, 4, 7, false), When: r.Intn(5000000) - 1500000})
 	}
 	cases.Close()
 	impl.Close()
@@ -495,7 +495,7 @@ func oracle(args []string) {
 	}
 	r := rng.FromEnv(1313)
 	for i := 0; i < *n; i++ {
-		run(Case{File: genFile(r, 5, 9, true), When: r.Intn(5000000)})
+		run(Case{File: genFile(r, 5, 9, true), When: r.Intn(5000000) - 1500000})
 	}
 	enc(sum)
 	res.Close()
